@@ -11,6 +11,9 @@ Enumerated completely (no sampling):
     ov_read: 1 frame, 3 frames, 7 bytes (not frame aligned), 4096 bytes;
     ov_read_filter with a stateless gain-0.5 filter and with an identity filter: 64 bytes, 1 frame, 1000, 4096, alternating 64/4096 and 4/1000) x delivery sets (quick: chosen cap set and all
     1-cuts of the smallest file and around the link boundaries; thorough: full product with all caps and all 1-cuts of every file)
+  * the `initial`/`ibytes` hand-over of ov_open_callbacks (first k bytes already read by the caller, source positioned after
+    them): k over a boundary set (1, 4, 27, 28, first page +-1, header end +-1, first audio pages, 2 KiB/4 KiB/64 KiB +-1, link
+    boundaries, whole file) on every file x path x caps/request schedules/apis, EVERY k on the small files, and k x every 1-cut
   * x access path: vorbisfile seekable / vorbisfile streaming (seek_func NULL) / packet API via a raw libogg loop.
 Oracle: per link bit-identical floats to the packet-API decode with full reads, link order, channel count/rate, no
 negative return (no hole / rejected packet on the packet path), ov_read integer bytes identical across schedules."""
@@ -175,7 +178,9 @@ class Runner:
         for c, r in zip(cases, res):
             st, fl = parse(r)
             sp = c.split(' ')
-            fname, path, api, req = sp[0], sp[1], sp[2], sp[3]
+            fname, ptok, api, req = sp[0], sp[1], sp[2], sp[3]
+            path = ptok[0]                      # 's@58' = seekable with 58 bytes handed over as `initial`
+            ini = ptok[2:] if '@' in ptok else ''
             nl = len(self.files[fname]['links'])
             row = 'rown' in fl
             n = int(fl['rown']) if row else 1
@@ -185,6 +190,9 @@ class Runner:
             g['n'] += n
             if 'RH' in fl:
                 self.rh.setdefault(fname, set()).add(fl['RH'] + '/' + fl.get('RIH', ''))
+            if ini and not row and st == 'ok':
+                self.logs.add((fname, ptok, api, req, fl.get('LG')))     # a non-empty initial buffer is itself a deviation
+                g['ini'] = g.get('ini', 0) + 1
             if row:
                 g['hit'] += int(fl['both'])
                 self.rowD += int(fl['D'])
@@ -192,7 +200,7 @@ class Runner:
             else:
                 if fl.get('all') == '1' and int(fl.get('hits', 0)) > 0:
                     g['hit'] += 1
-                    self.logs.add((fname, path, api, req, fl.get('LG')))
+                    self.logs.add((fname, ptok, api, req, fl.get('LG')))
                 g['maxR'] = max(g['maxR'], int(fl.get('R', 0)))
                 g['maxC'] = max(g['maxC'], int(fl.get('C', 0)))
                 g['maxB'] = max(g.get('maxB', 0), int(fl.get('B', 0)))
@@ -209,7 +217,7 @@ class Runner:
                     single = ' '.join(sp[:-1] + [fl['firstbad']])
                 key = classify(fname, nl, path, api, devclass, st, fl)
                 self.viol_counts[key] = self.viol_counts.get(key, 0) + (int(fl['rowbad']) if row else 1)
-                what = {'s': 'vorbisfile seekable', 'n': 'vorbisfile streaming (seek_func NULL)', 'p': 'packet API (libogg loop)'}[path]
+                what = {'s': 'vorbisfile seekable', 'n': 'vorbisfile streaming (seek_func NULL)', 'p': 'packet API (libogg loop)'}[path] + (f' with initial/ibytes={ini} (source positioned after them)' if ini else '')
                 self.chk.violation(key, f'{fname} ({nl} link{"s" if nl > 1 else ""}) via {what}, {API_NAME.get(api, api)} lengths {req}, case "{single}": {st} neg={fl.get("neg", "?")} {fl.get("raw", "")}'[:400],
                                    {'case': single, 'phase': phase})
         if len(self.samples) < 40:
@@ -301,6 +309,44 @@ def run(tier):
     if thorough:
         c2 += [R.case('BIG', 's', 'f', 'c4096', 0, [b]) for b in range(LB - 4096, LB)]
     phase('cut1', 'cut1', c2, 'k', 20000)
+
+    pg_S_hdr = files['S']['pages'][2].offset
+    # ---- phase 2b: the first k bytes handed over through `initial`/`ibytes` (source positioned after them), every path
+    def ibound(f):
+        """boundary set of initial sizes for file f"""
+        F = files[f]
+        pgs = F['pages']
+        hdr_end = pgs[2].offset                     # first audio page of link 0
+        a2 = pgs[min(3, len(pgs) - 1)].offset       # second audio page (or the only one)
+        v = {1, 4, 26, 27, 28, pgs[0].size() - 1, pgs[0].size(), pgs[0].size() + 1, pgs[1].offset + 27, pgs[1].offset + 28,
+             1000, 2047, 2048, 2049, hdr_end - 1, hdr_end, hdr_end + 1, hdr_end + 27, a2 - 1, a2, a2 + 1, a2 + 40,
+             4096, 4097, 8192, 65536, 65537, F['len'] - 1, F['len']}
+        for b in F['bounds'][1:]:
+            q = [x for x in pgs if x.offset >= b]
+            v.update([b - 1, b, b + 1, b + 58, q[1].offset + 100, q[2].offset, q[2].offset + 1, q[min(3, len(q) - 1)].offset + 5])
+        return sorted(x for x in v if 1 <= x <= F['len'])
+    ci = []
+    for f in files:
+        for k in ibound(f):
+            for p in PATHS:
+                for c in (0, 1, 7, 255, 2048) if not thorough else CAPS_SMALL:
+                    ci.append(R.case(f, f'{p}@{k}', 'f', 'c4096', c, []))
+                for q in ('c1', 'r70'):
+                    ci.append(R.case(f, f'{p}@{k}', 'f', q, 0, []))
+            for p in ('s', 'n'):
+                for a_, q in (('i', 'b4096'), ('i', 'F1'), ('g', 'b64'), ('k', 'a4,1000')):
+                    ci.append(R.case(f, f'{p}@{k}', a_, q, 0, []))
+    # every initial size of the small files (thorough: of every file but BIG)
+    for f in (('S', 'S2') if not thorough else ('S', 'S2', 'F1', 'F2')):
+        for p in PATHS:
+            ci += [R.case(f, f'{p}@{k}', 'f', 'c4096', 0, []) for k in range(1, files[f]['len'] + 1)]
+    phase('initial', 'initial', ci, 'i', 20000)
+    # initial x every 1-cut of the smallest file
+    cj = []
+    for k in ((1, 58, 59, 2048, pg_S_hdr + 1) if not thorough else ibound('S')):
+        for p in (('s', 'n') if not thorough else PATHS):
+            cj += rows(R, 'S', f'{p}@{k}', 'f', 'c4096', 0, [], 1, files['S']['len'])
+    phase('initial_x_cut1', 'initial', cj, 'j', 200)
 
     # ---- phase 3: 2-cut pairs inside declared windows
     S = files['S']
@@ -398,13 +444,18 @@ def run(tier):
         if complete.get('req_x_caps'):
             g = G.get(('req_x_caps', 'F2', p), {})
             chk.guard(g.get('maxC', 0) >= files['F2']['total'], f'length-1 requests really consumed F2 one sample per call via {p} (max calls {g.get("maxC")})')
+    if complete.get('initial'):
+        for f in files:
+            for p in PATHS:
+                g = G.get(('initial', f, p), {})
+                chk.guard(g.get('ini', 0) >= 0.9 * g.get('n', 1) and g.get('n', 0) >= 20, f'opens with a non-empty initial buffer ran and passed on {f}/{p} ({g.get("ini")}/{g.get("n")})')
     chk.guard(sum(g['n'] for g in G.values()) == chk.cov['evaluations'], 'every execution attributed to a (phase, file, path) group')
 
     per_group = {f'{ph}:{f}:{p}': {'executions': g['n'], 'deviation_applied': g['hit'], 'failing': g['bad']} for (ph, f, p), g in sorted(G.items())}
     chk.cov.update({
         'distinct_nontrivial': len(R.logs) + R.rowD,
         'rule': 'DEV enumeration of read-callback answers: default = full answer; deviations = uniform cap c (every c in 1..2048, 4096, 65536) or cuts (read stops at absolute offset b; every b in 1..len-1; '
-                '2-cut pairs: all pairs inside the listed windows' + (' and ALL pairs b1<b2 of file S' if thorough else '') + ') x access path {seekable vorbisfile, streaming vorbisfile, packet API} x request-length schedules '
+                '2-cut pairs: all pairs inside the listed windows' + (' and ALL pairs b1<b2 of file S' if thorough else '') + '; hand-over of the first k bytes through initial/ibytes with the source positioned after them: k over a boundary set on every file and every k on the small files, also x every 1-cut of S) x access path {seekable vorbisfile, streaming vorbisfile, packet API} x request-length schedules '
                 f'(ov_read_float {REQ_F}, ov_read {REQ_I}, ov_read_filter with a gain-0.5 / an identity filter {REQ_G} [bytes]); files F1 (1 link), F2 (3 links 1ch/2ch/1ch, 8k/11.025k/44.1k), S2 (2 links 1ch/2ch), S (1 link, smallest), BIG (1 link > 64 KiB: caps, and 1-cuts only around the landing point of the open-time backward hop, seekable path). '
                 'distinct_nontrivial = number of distinct (file, path, api, request schedule, hash of the complete callback log) among single cases in which a deviation actually shortened a read, '
                 'plus, for row cases (one execution per value of the last cut), the number of distinct callback logs within each row among executions where every cut shortened a read (rows differ in file/path/schedule/first cut)',
@@ -416,6 +467,7 @@ def run(tier):
     chk.assumptions += [
         'reference = packet-level decode (libogg + vorbis_synthesis) of the same library with full 4096-byte reads, checked against construction ground truth (channels, rate, sample count per link)',
         'streaming mode: the *bitstream index is only required to be constant inside a link and to change at a link boundary; seekable mode: equal to the link number',
+        'initial/ibytes: the bytes handed over are exactly the first k bytes of the file and the source (seekable or not) is positioned at k; path p feeds them as one ogg_sync_wrote',
         'ov_read integer output is only compared across schedules/modes (anchor: seekable, full reads, 4096 bytes); exact packing is C17',
         'ov_read_filter: the filter must be shown exactly the unfiltered reference PCM, every frame once (frames shown == frames delivered at end of stream); '
         'bytes delivered with the gain filter are compared across schedules with an anchor taken with a 131072-byte buffer (a whole block always fits) that is tied to 0.5*reference within one LSB',
